@@ -144,6 +144,7 @@ Definition set_receiver (fuel : nat) (s : store) (c r : nat) : result store :=
 Inductive fop :=
 | FSetOut (c : nat) (v : slot)            (* upstream.outputs.y.value = v                       *)
 | FConnect (c u : nat)                    (* input c .connect(output u)  (prepends)             *)
+| FConnectMany (c : nat) (us : list nat)  (* input c .connect(u1, u2, ...): one after the other  *)
 | FDisconnect (c u : nat)
 | FAssign (c : nat) (v : slot)            (* node.inputs.x.value = v  /  node.inputs.x = v      *)
 | FStrict (c : nat) (b : bool)            (* channel.strict_hints = b                           *)
@@ -177,6 +178,11 @@ Section Hist.
         if memn u (c_conns (getc s c)) then (st, FOk)
         else (keep (upd_chan s c (fun ch => {| c_val := c_val ch; c_hinted := c_hinted ch; c_strict := c_strict ch;
                                                c_recv := c_recv ch; c_conns := u :: c_conns ch; c_owner := c_owner ch |})), FOk)
+    | FConnectMany c us =>
+        (keep (fold_left (fun s' u => if memn u (c_conns (getc s' c)) then s'
+                                      else upd_chan s' c (fun ch => {| c_val := c_val ch; c_hinted := c_hinted ch; c_strict := c_strict ch;
+                                                                      c_recv := c_recv ch; c_conns := u :: c_conns ch; c_owner := c_owner ch |}))
+                         us s), FOk)
     | FDisconnect c u =>
         (keep (upd_chan s c (fun ch => {| c_val := c_val ch; c_hinted := c_hinted ch; c_strict := c_strict ch;
                                           c_recv := c_recv ch; c_conns := remove1 Nat.eqb u (c_conns ch); c_owner := c_owner ch |})), FOk)
